@@ -10,8 +10,9 @@ import Dashu.Gen.ConvToFloat
   A rational is `(num : Int, den : Nat)` as it is STORED (`RBig`: lowest terms, `Relaxed`: common factors of
   two removed) — the algorithm's digit counts, hence its result, depend on the representation.
 
-  The decision `num_digits >= precision + den_digits`, the shift amount and the panic sites are the
-  REGENERATED text of the source (`Dashu.Gen.ConvToFloat`, Tie A).
+  The saturating sum `need_digits = precision.saturating_add(den_digits)` (/repo 43925c0; before it the sum was a
+  plain `usize` addition with a debug-build overflow panic), the decision `num_digits >= need_digits`, the shift
+  amount and the panic site are the REGENERATED text of the source (`Dashu.Gen.ConvToFloat`, Tie A).
 -/
 namespace Dashu.Model.Conv
 open Dashu.Model Dashu.Model.Float
@@ -47,13 +48,12 @@ def fbigShr (v : FRepr) (shift : Int) : FRepr := if v.isZero then v else ⟨v.si
     `assert!(precision > 0)`; zero ⇒ `Exact(0)`; quotient stage; first rounding to an integer; then
     `rounded.and_then(|n| context.convert_int(n))` (`Repr::new(n, 0)` + `repr_round` to `precision` digits: a
     SECOND rounding whenever the quotient has `precision + 1` or more digits; the later inexact flag wins) and
-    `.map(|f| f >> shift)`.  The debug-build overflow check of `precision + den_digits` (a `usize` addition) is
-    part of the mirrored behaviour. -/
+    `.map(|f| f >> shift)`.  `precision + den_digits` saturates at `usize::MAX` (inside `toFloatQuot`, regenerated);
+    a saturated sum asks for a shift of about `2^64` digits, which the allocator refuses (driver: `AllocTooMuch`). -/
 def ratToFloat (B : Nat) (m : Float.Mode) (c : Coarse) (num : Int) (den : Nat) (p : Nat) :
     Except PanicKind (Float.Rounded FRepr) :=
   if p = 0 then .error (.undocumented Dashu.Gen.ConvToFloat.to_float_assert_site)
   else if num = 0 then .ok ((⟨0, 0⟩ : FRepr), none)
-  else if p + ilogB B den ≥ 2 ^ 64 then .error (.undocumented Dashu.Gen.ConvToFloat.to_float_add_site)
   else
     let t := toFloatQuot B num den p
     let f := toFloatFirst m den t.2.1 t.2.2
